@@ -488,6 +488,31 @@ example : ((payloadBlk (prepared cfgW exB).blocks).map (fun x => (x.c.btsd, x.la
     ∧ (prepared cfgW exB).size - 64 + 3 * headLen 64 ≤ 90 := by
   constructor <;> decide +kernel
 
+/-- **C05_cl_failure.** A CL sender that raises — on any set of hand-overs — changes nothing of what is
+    handed to the CL for the request: the byte strings are exactly those of the failure-free run, in
+    the same order (every fragment is still created and handed over: none is lost, and the original is
+    not handed over in their place). Hence `C05_size`, `C05_sound`, `C05_outputs`, `C05_tiling` hold
+    verbatim for the failing run (`C05_cl_failure_size` spells out the size bound). The failure is
+    visible only as escaped exceptions (`escaped`, `idleEscapes`). -/
+theorem C05_cl_failure (cfg : Cfg) (fail : Nat → Bool) (mtu : Option Nat) (b : FBundle) :
+    (sendFailing cfg fail mtu b).handed = clOutputs cfg mtu b := by
+  simp only [sendFailing, clOutputs, runIdle_handed]
+
+theorem C05_cl_failure_size (cfg : Cfg) (hsec : cfg.secStep = id)
+    (hcrc : ∀ t d, (cfg.crcFn t d).length = crcWidth t) (fail : Nat → Bool) (m : Nat) (b : FBundle)
+    (hwf : CrcWf b) (P : Bytes) (hpay : (prepared cfg b).payload = some P) :
+    ∀ out ∈ (sendFailing cfg fail (some m) b).handed, out.length ≤ m ∨
+      (out = finalize cfg (prepared cfg b) ∧ create (some m) (prepared cfg b) = .skip) := by
+  rw [C05_cl_failure]
+  exact C05_sound cfg hsec hcrc m b hwf P hpay
+
+/-- the sender raises on the 2nd of 3 hand-overs: all three fragments are handed over, the second idle
+    callback escapes, the original call does not -/
+example : sendFailing cfgW (fun i => i == 1) (some 90) exB =
+    { handed := clOutputs cfgW (some 90) exB, escaped := false, idleEscapes := [1] }
+    ∧ (clOutputs cfgW (some 90) exB).map List.length = [89, 90, 65] := by
+  constructor <;> decide +kernel
+
 /-- a security step in the style of `_apply_bib` (transmit chain order 10, before fragment creation at
     20): it adds a block of type 11 with a fresh number and 73 octets of data targeting the payload -/
 def secGrow (b : FBundle) : FBundle :=
